@@ -170,6 +170,38 @@ mutant('C11', 'timeout-20s', 'frappy/client/__init__.py',
 mutant('C11', 'tx-thread-not-stopped', 'frappy/client/__init__.py',
        "            self.txq.put(None)  # shutdown marker\n            txthread.join()",
        "            pass")
+# ---------------------------------------------------------------- C12
+mutant('C12', 'future-timestamps-kept', 'frappy/client/__init__.py',
+       "                            timestamp = min(now, timestamp)  # no timestamps in the future!",
+       "                            pass")
+mutant('C12', 'module-callback-dropped', 'frappy/client/__init__.py',
+       "        self.callback(module, 'updateItem', module, param, entry)\n", "")
+mutant('C12', 'oneshot-not-removed', 'frappy/client/__init__.py',
+       "            except UnregisterCallback:\n                cblist.remove(cbfunc)",
+       "            except UnregisterCallback:\n                pass")
+mutant('C12', 'shorthand-swapped', 'frappy/client/__init__.py',
+       "                            if action == WRITEREPLY:\n                                module_param = self.internal.get(f'{ident}:target', None)",
+       "                            if action != WRITEREPLY:\n                                module_param = self.internal.get(f'{ident}:target', None)")
+mutant('C12', 'scaled-export-truncates', 'frappy/datatypes.py',
+       "        return int(round(value / self.scale))\n\n    def import_value(self, value):",
+       "        return int(value / self.scale)\n\n    def import_value(self, value):")
+mutant('C12', 'error-update-keeps-value-no-error', 'frappy/client/__init__.py',
+       "                                readerror = make_secop_error(*data[0:2])\n                                value = None",
+       "                                readerror = None\n                                value = None")
+mutant('C12', 'raising-callback-stops-others', 'frappy/client/__init__.py',
+       "            except Exception as e:\n                if cbname != 'handleError':",
+       "            except Exception as e:\n                break\n                if cbname != 'handleError':")
+mutant('C12', 'cache-after-callbacks', 'frappy/client/__init__.py',
+       "        entry = CacheItem(value, timestamp, readerror, datatype)\n        self.cache[(module, param)] = entry\n        self.callback(None, 'updateItem', module, param, entry)",
+       "        entry = CacheItem(value, timestamp, readerror, datatype)\n        self.callback(None, 'updateItem', module, param, entry)")
+mutant('C12', 'blob-export-urlsafe', 'frappy/datatypes.py',
+       "        return b64encode(value).decode('ascii')", "        return b64encode(value, b'-_').decode('ascii')")
+mutant('C12', 'struct-import-drops-member', 'frappy/datatypes.py',
+       "        return {str(k): self.members[k].import_value(v)\n                for k, v in value.items()}",
+       "        return {str(k): self.members[k].import_value(v)\n                for k, v in list(value.items())[:2]}")
+mutant('C12', 'register-no-immediate-callback', 'frappy/client/__init__.py',
+       "                    data = self.cache.get(key, None)\n                    if data:  # case single parameter",
+       "                    data = None\n                    if data:  # case single parameter")
 
 
 def run_mutant(prop, name, file, old, new, runs, extra):
